@@ -17,7 +17,7 @@ class C07(Spec):
             "fill and the socket really returns EAGAIN); connection B of the same worker sends a request after a third of "
             "the stall; measured: B is answered within a third of the stall, the number of send calls made on A while it "
             "is stalled (counted through the PISTACHE_VERIF hook) stays below 1000, A finally receives every byte in order "
-            "and its promise is fulfilled with the full size; the same with a handler that, during the stall, queues more data for A and calls Transport::flush() on the worker thread (a send attempted on the blocked descriptor without progress); plus the scripted would-block cases of C06 for the loop-control "
+            "and its promise is fulfilled with the full size; the same with a handler that, during the stall, queues more data for A and calls Transport::flush() on the worker thread (a send attempted on the blocked descriptor without progress); the stalled socket becoming writable in the same readiness event that reports input for the connection (E cases); plus the scripted would-block cases of C06 for the loop-control "
             "logic. non-trivial = every case; distinct by (stall, size)")
     assumptions = ["'bounded time' is measured with generous margins (a third of the stall); wall-clock behaviour is a runtime residue",
                    "edge-triggered epoll re-arm is what the kernel does, not modelled"]
@@ -27,12 +27,17 @@ class C07(Spec):
         combos = [(900, 24), (900, 8), (1500, 48)] if tier == "quick" else [(s, m) for s in (900, 1500, 2400) for m in (8, 16, 32, 48, 64)]
         for stall, mb in combos:
             cases.append("S %d %d" % (stall, mb << 20))
-        # ... and with a send attempted on the blocked descriptor that makes no progress (a handler flushing behind the blocked write)
-        # (sizes up to 16 MB: every flush attempt copies what remains of the blocked buffer, which is time spent in the handler,
-        # not a stall caused by the blocked peer; with 48-64 MB the 17 flushes alone took longer than the measuring window - a
-        # false alarm of the first version of this case, see DESIGN section 9)
-        for stall, mb in ([(900, 16), (900, 8)] if tier == "quick" else [(s_, m_) for s_ in (900, 1500, 2400) for m_ in (8, 12, 16)]):
+        # ... and with sends attempted on the blocked descriptor that make no progress (a handler flushing behind the blocked write, 17
+        # times).  Before the fix of the fifth round every such attempt copied what remained of the blocked buffer three times on the
+        # worker thread: with 48-64 MB the other connection was not served for longer than the measuring window.  (The first version
+        # of this case was withdrawn as a false alarm - "time spent in the handler" - and limited to 16 MB; the fifth round's survey
+        # showed the copies to be the library's, see DESIGN section 9.)
+        for stall, mb in ([(900, 16), (900, 8), (900, 48), (900, 64)] if tier == "quick" else [(s_, m_) for s_ in (900, 1500, 2400) for m_ in (8, 12, 16, 48, 64)]):
             cases.append("S %d %d f" % (stall, mb << 20))
+        # the stalled socket becomes writable again while input for the same connection is waiting and the worker is busy elsewhere:
+        # one readiness event reports both; what is pending must still be delivered (the cases of C06's check, other sizes)
+        for busy, mb in ([(300, 12), (250, 8)] if tier == "quick" else [(b, m) for b in (150, 300, 500) for m in (8, 12, 24)]):
+            cases.append("E %d %d" % (busy, mb << 20))
         for th in "LF":
             for sc in ("w", "w,w", "a1,w,a7,w", "w,a999999,w", "a4096,w,w,w,a1"):
                 cases.append("X %s 200000,1000 %s" % (th, sc))
@@ -49,6 +54,11 @@ class C07(Spec):
                 return "the worker kept calling send on the stalled descriptor (busy wait) (%s)" % impl
             if f["a_content"] != "1" or f["a_value"] != "1":
                 return "after the stall the pending data was not delivered completely / promise value wrong (%s)" % impl
+        elif case.startswith("E"):
+            t = case.split()
+            if int(f["bytes"]) != int(t[2]) or f["content"] != "1" or f["p"] != t[2]:
+                return ("the stalled socket accepted data again in the same readiness event that reported input for the connection: the peer "
+                        "received %s of %s bytes, promise %s" % (f["bytes"], t[2], {"P": "never settled", "R": "rejected"}.get(f["p"], "fulfilled with " + f["p"])))
         else:
             sizes = [int(x) for x in case.split()[2].split(",")]
             if int(f["bytes"]) != sum(sizes) or f["content"] != "1" or f["p"] != ",".join(map(str, sizes)):
@@ -56,7 +66,7 @@ class C07(Spec):
         return None
 
     def kind(self, case, impl):
-        return "live-stall" if case.startswith("S") else "scripted"
+        return "live-stall" if case.startswith("S") else ("writable-with-input" if case.startswith("E") else "scripted")
 
 
 def run(rep, tier, seed):
